@@ -16,6 +16,21 @@ import (
 
 // ---------- derived types: one and two embedding levels ----------
 
+// a derived list that OVERRIDES the getters (it presents its elements in reverse order): user code navigating step by step goes
+// through the overrides; tree-form reads, which go through the registered value, must agree with it
+type RevList struct{ at.List }
+
+func (r *RevList) rix(i int) int             { return r.List.Count() - 1 - i }
+func (r *RevList) Get(i int) any             { return r.List.Get(r.rix(i)) }
+func (r *RevList) GetObject(i int) at.Object { return r.List.GetObject(r.rix(i)) }
+func (r *RevList) GetList(i int) at.List     { return r.List.GetList(r.rix(i)) }
+func (r *RevList) TypeOf(i int) at.Type {
+	if i < 0 || i >= r.List.Count() {
+		return at.TypeUndefined
+	}
+	return r.List.TypeOf(r.rix(i))
+}
+
 type MyList struct{ at.List }
 type MyList2 struct{ *MyList }
 type MyObj struct{ at.Object }
@@ -283,8 +298,46 @@ func innerLevelsStored(f *failer, outer any) {
 	}
 }
 
+// a derived value written over a PLAIN container with the same content (by Set / Replace / tree form) replaces it: afterwards every
+// retrieval hands back the derived value, not the equal plain one that was there before
+func overEqualPlain(f *failer, outer any) {
+	var plain any
+	switch o := outer.(type) {
+	case at.List:
+		plain = o.Clone()
+	case at.Object:
+		plain = o.Clone()
+	}
+	type tgt struct {
+		name string
+		get  func() any
+	}
+	var tgts []tgt
+	ho := at.NewObject("d", plain)
+	ho.SetTF(".d", outer)
+	tgts = append(tgts, tgt{"Object.SetTF over an equal plain container", func() any { return ho.Get("d") }})
+	ho2 := at.NewObject("d", plain)
+	ho2.Set("d", outer)
+	tgts = append(tgts, tgt{"Object.Set over an equal plain container", func() any { return ho2.Get("d") }})
+	hl := at.NewList(plain, 1)
+	hl.SetTF("#0", outer)
+	tgts = append(tgts, tgt{"List.SetTF over an equal plain container", func() any { return hl.Get(0) }})
+	hl2 := at.NewList(plain, 1)
+	hl2.Replace(0, outer)
+	tgts = append(tgts, tgt{"List.Replace over an equal plain container", func() any { return hl2.Get(0) }})
+	deep := at.NewObject("a", at.NewList(at.NewObject("b", plain)))
+	deep.SetTF(".a#0.b", outer)
+	tgts = append(tgts, tgt{"nested SetTF over an equal plain container", func() any { return deep.GetTF(".a#0.b") }})
+	for _, t := range tgts {
+		if got := t.get(); got != outer {
+			f.fail("%s: retrieval hands back %T, not the derived value %T that was written", t.name, got, outer)
+		}
+	}
+}
+
 func storedChecks(f *failer, outer any, isObj bool) {
 	defer innerLevelsStored(f, outer)
+	defer overEqualPlain(f, outer)
 	// a mutator that panics (an invalid index in a multi-index Delete, Insert/Replace out of range, Set with an odd count) leaves
 	// the stored derived values where they are: the identical outer value is still handed back
 	func() {
@@ -448,6 +501,27 @@ func asyncCase(r *R, kind, n, procs int, delayPattern int) *Case {
 	for i := range vals {
 		vals[i] = i * 10
 	}
+	// MapAsync: some elements are floats (both zeros among them) and the mapping function negates them: Map and MapAsync must agree
+	// bit for bit (a result that is "equal" under == but another value - -0 for 0 - is another result)
+	mapf := func(i int, x any) any {
+		switch v := x.(type) {
+		case float64:
+			return -v
+		case int:
+			return v + i
+		}
+		return x
+	}
+	if kind == 1 || kind == 3 {
+		for i := range vals {
+			switch i % 4 {
+			case 1:
+				vals[i] = 0.0
+			case 3:
+				vals[i] = float64(i) / 2
+			}
+		}
+	}
 	key := func(i int) string { return fmt.Sprintf("k%03d", i) }
 	delay := func(i int) {
 		switch delayPattern {
@@ -558,11 +632,11 @@ func asyncCase(r *R, kind, n, procs int, delayPattern int) *Case {
 				log = append(log, i)
 				mu.Unlock()
 				atomic.AddInt64(&finished, 1)
-				return x.(int) + i
+				return mapf(i, x)
 			})
 			allDone = atomic.LoadInt64(&finished) == int64(n)
-			want := l.Map(func(i int, x any) any { return x.(int) + i })
-			resultOK = res.Equals(want) && res.Count() == n
+			want := l.Map(mapf)
+			resultOK = canon(res) == canon(want) && res.Count() == n
 			if !resultOK {
 				f.fail("MapAsync result %s differs from Map result %s", res.String(), want.String())
 			}
@@ -616,11 +690,11 @@ func asyncCase(r *R, kind, n, procs int, delayPattern int) *Case {
 				log = append(log, i)
 				mu.Unlock()
 				atomic.AddInt64(&finished, 1)
-				return x.(int) + i
+				return mapf(i, x)
 			})
 			allDone = atomic.LoadInt64(&finished) == int64(n)
-			want := o.Map(func(k string, x any) any { return x.(int) + idx(k) })
-			resultOK = res.Equals(want) && res.Count() == n
+			want := o.Map(func(k string, x any) any { return mapf(idx(k), x) })
+			resultOK = canon(res) == canon(want) && res.Count() == n
 			if !resultOK {
 				f.fail("MapAsync result differs from Map result")
 			}
@@ -660,8 +734,12 @@ func asyncCase(r *R, kind, n, procs int, delayPattern int) *Case {
 	for i, x := range sorted {
 		items[i] = fmt.Sprintf("%d%%nat", x)
 	}
+	coqTerm := fmt.Sprintf("(%d, %d%%nat, %s, %s, %s)", kind, n, coqList(items), coqBool(allDone), coqBool(resultOK))
+	if n > 300 {
+		coqTerm = "" // the schedule simulation of the model is quadratic in n: beyond 300 workers the case is judged by the predicates above only
+	}
 	return &Case{
-		Coq:        fmt.Sprintf("(%d, %d%%nat, %s, %s, %s)", kind, n, coqList(items), coqBool(allDone), coqBool(resultOK)),
+		Coq:        coqTerm,
 		Desc:       map[string]any{"method": []string{"List.ForEachAsync", "List.MapAsync", "Object.ForEachAsync", "Object.MapAsync"}[kind], "n": n, "GOMAXPROCS": procs, "delay_pattern": delayPattern, "calls": len(sorted), "all_done_at_return": allDone},
 		Pred:       f.pred, PredMsg: f.msg,
 		Nontrivial: n >= 2,
@@ -835,7 +913,7 @@ func nestedAsyncCase(r *R, procs int) *Case {
 var asyncStuck bool
 
 func genC15(r *R, n int, tier string, out *Out) {
-	sizes := []int{0, 1, 2, 3, 7, 8, 9, 10, 13, 15, 16, 17, 23, 33, 63, 64, 65, 100, 129}
+	sizes := []int{0, 1, 2, 3, 7, 8, 9, 10, 13, 15, 16, 17, 23, 33, 63, 64, 65, 100, 129, 1025, 2050}
 	if thorough {
 		sizes = append(sizes, 257, 1000, 1025)
 	}
